@@ -1,6 +1,918 @@
-//! C11 — monitor not written yet.
-use crate::ctx::Ctx;
+//! C11 — proof verifiers accept exactly the Schnorr and pairing relations.
+//!
+//! Oracle: the relations recomputed by the reference evaluators from the proof's *wire* atoms, the
+//! parameter atoms and `Challenge::to_scalar()`. Refuting event: the verifier's result differs
+//! from the oracle (both directions of the "iff" have their own signature and counters), or a
+//! single-field change to an accepted proof / a changed challenge is accepted.
+
+use crate::ctx::{hex, Ctx};
+use crate::refs::*;
+use crate::shadow::{Resp, Schnorr};
+use crate::srng::ScriptRng;
+use crate::tracer::{trace, Atom, Kind, Trace};
+use crate::wire::{alt_valid, dec, g1_identity_bytes, g2_identity_bytes};
+use bls12_381::{G1Affine, G1Projective, G2Affine, G2Projective, Scalar};
+use ff::Field;
+use group::{Curve, Group, GroupEncoding};
+use rand_chacha::ChaCha20Rng;
+use rand_core::RngCore;
+use serde_json::{json, Value};
+use zkchannels_crypto::{
+    pedersen::PedersenParameters,
+    pointcheval_sanders::{KeyPair, PublicKey},
+    proofs::{
+        verif_hooks, Challenge, ChallengeBuilder, CommitmentProof, CommitmentProofBuilder, SignatureProof, SignatureProofBuilder,
+        SignatureRequestProof, SignatureRequestProofBuilder,
+    },
+    Message,
+};
+
+type R = ChaCha20Rng;
+
+#[derive(Debug, Clone, Copy, PartialEq, Eq)]
+enum Ty {
+    ComG1,
+    ComG2,
+    Sig,
+    Req,
+}
+
+impl Ty {
+    const ALL: [Ty; 4] = [Ty::ComG1, Ty::ComG2, Ty::Sig, Ty::Req];
+    fn name(self) -> &'static str {
+        match self {
+            Ty::ComG1 => "CommitmentProof<G1>",
+            Ty::ComG2 => "CommitmentProof<G2>",
+            Ty::Sig => "SignatureProof",
+            Ty::Req => "SignatureRequestProof",
+        }
+    }
+    fn short(self) -> &'static str {
+        match self {
+            Ty::ComG1 => "ComG1",
+            Ty::ComG2 => "ComG2",
+            Ty::Sig => "Sig",
+            Ty::Req => "Req",
+        }
+    }
+    /// field-path prefix of the commitment proof inside the proof
+    fn prefix(self) -> &'static str {
+        match self {
+            Ty::ComG1 | Ty::ComG2 => "",
+            Ty::Sig | Ty::Req => "commitment_proof",
+        }
+    }
+}
+
+fn pfx(p: &str, name: &str) -> String {
+    if p.is_empty() {
+        name.to_string()
+    } else {
+        format!("{}/{}", p, name)
+    }
+}
+
+// ------------------------------------------------------------------------------------------
+// library side
+
+struct Setup<const N: usize> {
+    kp: KeyPair<N>,
+    p1: PedersenParameters<G1Projective, N>,
+    p2: PedersenParameters<G2Projective, N>,
+}
+
+enum Params<const N: usize> {
+    P1(PedersenParameters<G1Projective, N>),
+    P2(PedersenParameters<G2Projective, N>),
+    Pk(PublicKey<N>),
+}
+
+impl<const N: usize> Setup<N> {
+    fn new(rng: &mut R) -> Self {
+        Setup {
+            kp: KeyPair::new(rng),
+            p1: PedersenParameters::new(rng),
+            p2: PedersenParameters::new(rng),
+        }
+    }
+    fn params(&self, ty: Ty) -> Params<N> {
+        match ty {
+            Ty::ComG1 => Params::P1(self.p1.clone()),
+            Ty::ComG2 => Params::P2(self.p2.clone()),
+            Ty::Sig | Ty::Req => Params::Pk(self.kp.public_key().clone()),
+        }
+    }
+    fn ptrace(&self, ty: Ty) -> Result<Trace, String> {
+        match ty {
+            Ty::ComG1 => trace(&self.p1),
+            Ty::ComG2 => trace(&self.p2),
+            Ty::Sig | Ty::Req => trace(self.kp.public_key()),
+        }
+    }
+}
+
+fn dec_params<const N: usize>(ty: Ty, b: &[u8]) -> Result<Params<N>, String> {
+    Ok(match ty {
+        Ty::ComG1 => Params::P1(dec(b)?),
+        Ty::ComG2 => Params::P2(dec(b)?),
+        Ty::Sig | Ty::Req => Params::Pk(dec(b)?),
+    })
+}
+
+/// decode the proof bytes and run the library's verifier; Err = the bytes do not decode
+fn lib_verify<const N: usize>(ty: Ty, bytes: &[u8], p: &Params<N>, ch: Challenge) -> Result<bool, String> {
+    match (ty, p) {
+        (Ty::ComG1, Params::P1(pp)) => Ok(dec::<CommitmentProof<G1Projective, N>>(bytes)?.verify_knowledge_of_opening(pp, ch)),
+        (Ty::ComG2, Params::P2(pp)) => Ok(dec::<CommitmentProof<G2Projective, N>>(bytes)?.verify_knowledge_of_opening(pp, ch)),
+        (Ty::Sig, Params::Pk(pk)) => Ok(dec::<SignatureProof<N>>(bytes)?.verify_knowledge_of_signature(pk, ch)),
+        (Ty::Req, Params::Pk(pk)) => Ok(dec::<SignatureRequestProof<N>>(bytes)?.verify_knowledge_of_opening(pk, ch).is_some()),
+        _ => Err("harness: parameter kind does not match proof type".into()),
+    }
+}
+
+/// the Fiat-Shamir challenge the library derives from the (decoded) proof
+fn fs_challenge<const N: usize>(ty: Ty, bytes: &[u8], salt: &[u8]) -> Result<Challenge, String> {
+    let cb = ChallengeBuilder::new();
+    let cb = match ty {
+        Ty::ComG1 => cb.with(&dec::<CommitmentProof<G1Projective, N>>(bytes)?),
+        Ty::ComG2 => cb.with(&dec::<CommitmentProof<G2Projective, N>>(bytes)?),
+        Ty::Sig => cb.with(&dec::<SignatureProof<N>>(bytes)?),
+        Ty::Req => cb.with(&dec::<SignatureRequestProof<N>>(bytes)?),
+    };
+    Ok(cb.with_bytes(salt).finish())
+}
+
+fn build_honest<const N: usize>(ty: Ty, rng: &mut R, st: &Setup<N>, msg: [Scalar; N], cs: &[Option<Scalar>; N], salt: &[u8]) -> Result<(Trace, Challenge), String> {
+    let m = Message::new(msg);
+    match ty {
+        Ty::ComG1 => {
+            let b = CommitmentProofBuilder::generate_proof_commitments(rng, m, cs, &st.p1);
+            let ch = ChallengeBuilder::new().with(&b).with_bytes(salt).finish();
+            Ok((trace(&b.generate_proof_response(ch))?, ch))
+        }
+        Ty::ComG2 => {
+            let b = CommitmentProofBuilder::generate_proof_commitments(rng, m, cs, &st.p2);
+            let ch = ChallengeBuilder::new().with(&b).with_bytes(salt).finish();
+            Ok((trace(&b.generate_proof_response(ch))?, ch))
+        }
+        Ty::Sig => {
+            let sig = m.sign(rng, &st.kp);
+            let b = SignatureProofBuilder::generate_proof_commitments(rng, m, sig, cs, st.kp.public_key());
+            let ch = ChallengeBuilder::new().with(&b).with_bytes(salt).finish();
+            Ok((trace(&b.generate_proof_response(ch))?, ch))
+        }
+        Ty::Req => {
+            let b = SignatureRequestProofBuilder::generate_proof_commitments(rng, m, cs, st.kp.public_key());
+            let ch = ChallengeBuilder::new().with(&b).with_bytes(salt).finish();
+            Ok((trace(&b.generate_proof_response(ch))?, ch))
+        }
+    }
+}
+
+// ------------------------------------------------------------------------------------------
+// oracle side: everything from wire atoms
+
+enum PA {
+    G1(G1Affine, Vec<G1Affine>),
+    G2(G2Affine, Vec<G2Affine>),
+    Pk(PkAtoms),
+}
+
+fn param_atoms(ty: Ty, t: &Trace) -> Result<PA, String> {
+    match ty {
+        Ty::ComG1 => {
+            let h = g1(&t.fget("h")?).ok_or("parameter atom h does not decode")?;
+            let mut gs = vec![];
+            while !t.by_fpath(&format!("gs/[{}]", gs.len())).is_empty() {
+                gs.push(g1(&t.fget(&format!("gs/[{}]", gs.len()))?).ok_or("parameter atom gs does not decode")?);
+            }
+            Ok(PA::G1(h, gs))
+        }
+        Ty::ComG2 => {
+            let h = g2(&t.fget("h")?).ok_or("parameter atom h does not decode")?;
+            let mut gs = vec![];
+            while !t.by_fpath(&format!("gs/[{}]", gs.len())).is_empty() {
+                gs.push(g2(&t.fget(&format!("gs/[{}]", gs.len()))?).ok_or("parameter atom gs does not decode")?);
+            }
+            Ok(PA::G2(h, gs))
+        }
+        Ty::Sig | Ty::Req => Ok(PA::Pk(PkAtoms::from_trace(t, "")?)),
+    }
+}
+
+#[derive(Debug, Clone, Copy, PartialEq, Eq)]
+struct Verdict {
+    wf: bool,
+    sch: bool,
+    link: bool,
+}
+
+impl Verdict {
+    fn all(self) -> bool {
+        self.wf && self.sch && self.link
+    }
+    fn which_false(self) -> String {
+        let mut v = vec![];
+        if !self.wf {
+            v.push("well-formed");
+        }
+        if !self.sch {
+            v.push("schnorr");
+        }
+        if !self.link {
+            v.push("pairing-link");
+        }
+        if v.is_empty() {
+            "none".into()
+        } else {
+            v.join("+")
+        }
+    }
+}
+
+fn responses(t: &Trace, p: &str) -> Result<(Scalar, Vec<Scalar>), String> {
+    let bf = sc(&t.fget(&pfx(p, "blinding_factor_response_scalar"))?).ok_or("blinding-factor response is not canonical")?;
+    let mut rs = vec![];
+    loop {
+        let path = pfx(p, &format!("message_response_scalars/[{}]", rs.len()));
+        if t.by_fpath(&path).is_empty() {
+            break;
+        }
+        rs.push(sc(&t.fget(&path)?).ok_or("response scalar is not canonical")?);
+    }
+    Ok((bf, rs))
+}
+
+/// the relation of the property, from the atoms of `t` (layout of an honest proof, possibly
+/// substituted bytes), the parameter atoms and the challenge scalar
+fn oracle(ty: Ty, t: &Trace, pa: &PA, c: &Scalar) -> Result<Verdict, String> {
+    let p = ty.prefix();
+    let (bf, rs) = responses(t, p)?;
+    let com = t.fget(&pfx(p, "commitment"))?;
+    let tt = t.fget(&pfx(p, "scalar_commitment"))?;
+    match (ty, pa) {
+        (Ty::ComG1, PA::G1(h, gs)) => {
+            let com = g1(&com).ok_or("commitment does not decode")?;
+            let tt = g1(&tt).ok_or("scalar commitment does not decode")?;
+            Ok(Verdict { wf: true, sch: schnorr_ref_g1(h, gs, &com, &tt, c, &bf, &rs), link: true })
+        }
+        (Ty::ComG2, PA::G2(h, gs)) => {
+            let com = g2(&com).ok_or("commitment does not decode")?;
+            let tt = g2(&tt).ok_or("scalar commitment does not decode")?;
+            Ok(Verdict { wf: true, sch: schnorr_ref_g2(h, gs, &com, &tt, c, &bf, &rs), link: true })
+        }
+        (Ty::Req, PA::Pk(pk)) => {
+            let com = g1(&com).ok_or("commitment does not decode")?;
+            let tt = g1(&tt).ok_or("scalar commitment does not decode")?;
+            Ok(Verdict { wf: true, sch: schnorr_ref_g1(&pk.g1, &pk.y1s, &com, &tt, c, &bf, &rs), link: true })
+        }
+        (Ty::Sig, PA::Pk(pk)) => {
+            let com = g2(&com).ok_or("commitment does not decode")?;
+            let tt = g2(&tt).ok_or("scalar commitment does not decode")?;
+            let s1 = g1(&t.fget("blinded_signature/sigma1")?).ok_or("sigma1 does not decode")?;
+            let s2 = g1(&t.fget("blinded_signature/sigma2")?).ok_or("sigma2 does not decode")?;
+            let (wf, sch, link) = sigproof_ref(pk, &s1, &s2, &com, &tt, c, &bf, &rs);
+            Ok(Verdict { wf, sch, link })
+        }
+        _ => Err("harness: parameter atoms do not match proof type".into()),
+    }
+}
+
+// ------------------------------------------------------------------------------------------
+// comparison and bookkeeping
+
+struct Obs<'a> {
+    ty: Ty,
+    n: usize,
+    /// counter class (no indices)
+    class: &'a str,
+    /// label in violation signatures (with the atom's field path)
+    label: &'a str,
+    /// the property says this object must be rejected whatever the oracle says
+    must_reject: bool,
+}
+
+fn compare(c: &mut Ctx, o: &Obs, lib: bool, v: Verdict, detail: impl FnOnce() -> Value) {
+    c.eval();
+    let rel = v.all();
+    c.count(if lib { "verifier_accepted" } else { "verifier_rejected" }, 1);
+    c.count(if rel { "relation_true" } else { "relation_false" }, 1);
+    if o.ty == Ty::Sig && !rel {
+        c.count(&format!("signature_proof_conjuncts_false[{}]", v.which_false()), 1);
+    }
+    match (lib, rel) {
+        (true, true) => {
+            c.count(&format!("accepted&relation-true[{}]", o.class), 1);
+            if o.must_reject {
+                c.violation(
+                    &format!("C11 changed-object-accepted type={} N={} perturbation={}", o.ty.name(), o.n, o.label),
+                    detail(),
+                );
+            }
+        }
+        (false, false) => c.count(&format!("rejected&relation-false[{}]", o.class), 1),
+        (true, false) => {
+            c.count("iff_violated(accepted,relation-false)", 1);
+            let mut d = detail();
+            d["relation_conjuncts_false"] = json!(v.which_false());
+            c.violation(
+                &format!("C11 verifier-accepts-but-relation-false type={} N={} perturbation={}", o.ty.name(), o.n, o.label),
+                d,
+            );
+        }
+        (false, true) => {
+            c.count("iff_violated(rejected,relation-true)", 1);
+            c.violation(
+                &format!("C11 verifier-rejects-but-relation-true type={} N={} perturbation={}", o.ty.name(), o.n, o.label),
+                detail(),
+            );
+        }
+    }
+}
+
+/// atom class for counters: the field path without indices
+fn atom_class(a: &Atom) -> String {
+    let mut s = String::new();
+    for part in a.fpath.split('/') {
+        if part.starts_with('[') {
+            continue;
+        }
+        if !s.is_empty() {
+            s.push('/');
+        }
+        s.push_str(part);
+    }
+    s
+}
+
+fn replacements(c: &Ctx, t: &Trace, a: &Atom, rng: &mut R) -> Vec<(&'static str, Vec<u8>)> {
+    let orig = t.atom_bytes(a);
+    let mut v: Vec<(&'static str, Vec<u8>)> = vec![];
+    match a.kind {
+        Kind::G1 | Kind::G2 => {
+            if let Some(b) = alt_valid(a.kind, orig, rng) {
+                v.push(("other-valid-point", b));
+            }
+            v.push(("identity", if a.kind == Kind::G1 { g1_identity_bytes().to_vec() } else { g2_identity_bytes().to_vec() }));
+            // thorough: the negated point (same x, other sign bit)
+            if c.tier.pick(false, true) {
+                let mut b = orig.to_vec();
+                b[0] ^= 0x20;
+                v.push(("negated-point", b));
+            }
+        }
+        Kind::B32 => {
+            if let Some(s) = sc(orig) {
+                v.push(("+1", (s + Scalar::one()).to_bytes().to_vec()));
+                v.push(("-1", (s - Scalar::one()).to_bytes().to_vec()));
+                if c.tier.pick(false, true) {
+                    v.push(("zero", Scalar::zero().to_bytes().to_vec()));
+                    v.push(("negated", (-s).to_bytes().to_vec()));
+                }
+            }
+            if let Some(b) = alt_valid(a.kind, orig, rng) {
+                v.push(("random", b));
+            }
+        }
+        _ => {}
+    }
+    v.retain(|(_, b)| b != orig);
+    v
+}
+
+// ------------------------------------------------------------------------------------------
+// simulated and compensated transcripts
+
+trait Grp: Group<Scalar = Scalar> + GroupEncoding {
+    fn from_wire(b: &[u8]) -> Option<Self>;
+}
+impl Grp for G1Projective {
+    fn from_wire(b: &[u8]) -> Option<Self> {
+        g1(b).map(Into::into)
+    }
+}
+impl Grp for G2Projective {
+    fn from_wire(b: &[u8]) -> Option<Self> {
+        g2(b).map(Into::into)
+    }
+}
+
+fn gb<G: Grp>(g: &G) -> Vec<u8> {
+    g.to_bytes().as_ref().to_vec()
+}
+
+fn fill_cp(tr: &mut Trace, p: &str, com: &[u8], t: &[u8], r: &Resp) -> Result<(), String> {
+    tr.fset(&pfx(p, "commitment"), com)?;
+    tr.fset(&pfx(p, "scalar_commitment"), t)?;
+    tr.fset(&pfx(p, "blinding_factor_response_scalar"), &r.bf.to_bytes())?;
+    for (i, s) in r.msg.iter().enumerate() {
+        tr.fset(&pfx(p, &format!("message_response_scalars/[{}]", i)), &s.to_bytes())?;
+    }
+    if !tr.by_fpath(&pfx(p, &format!("message_response_scalars/[{}]", r.msg.len()))).is_empty() {
+        return Err("template holds more response scalars than the simulator wrote".into());
+    }
+    Ok(())
+}
+
+struct Variant {
+    class: &'static str,
+    bytes: Vec<u8>,
+    /// the Schnorr conjunct is true by construction under the chosen challenge
+    schnorr_true_under_c: bool,
+}
+
+/// transcripts assembled without running the prover, for chosen challenge scalar `c`
+fn sim_variants<G: Grp>(rng: &mut R, honest: &Trace, p: &str, h: G, gs: &[G], c: &Scalar) -> Result<Vec<Variant>, String> {
+    let n = gs.len();
+    let com = G::from_wire(&honest.fget(&pfx(p, "commitment"))?).ok_or("honest commitment does not decode")?;
+    let t_honest = G::from_wire(&honest.fget(&pfx(p, "scalar_commitment"))?).ok_or("honest scalar commitment does not decode")?;
+    let (bf_h, rs_h) = responses(honest, p)?;
+    if rs_h.len() != n {
+        return Err(format!("proof has {} response scalars, parameters have {} generators", rs_h.len(), n));
+    }
+    let mut sch = Schnorr {
+        h,
+        gs: gs.to_vec(),
+        msg: vec![Scalar::zero(); n],
+        bf: Scalar::zero(),
+        cs: vec![Scalar::zero(); n],
+        bf_cs: Scalar::zero(),
+        com,
+        t: G::identity(),
+    };
+    let mut out = vec![];
+    let rand_resp = |rng: &mut R| Resp {
+        bf: Scalar::random(&mut *rng),
+        msg: (0..n).map(|_| Scalar::random(&mut *rng)).collect(),
+    };
+    // (a) the honest commitment, random responses, T := Com(resp) - c*C
+    {
+        let resp = rand_resp(rng);
+        let t = sch.t_for(c, &resp);
+        let mut tr = honest.clone();
+        fill_cp(&mut tr, p, &gb(&com), &gb(&t), &resp)?;
+        out.push(Variant { class: "simulated:honest-C", bytes: tr.bytes, schnorr_true_under_c: true });
+    }
+    // (b) a random commitment (nobody knows an opening), simulated the same way
+    {
+        sch.com = G::random(&mut *rng);
+        let resp = rand_resp(rng);
+        let t = sch.t_for(c, &resp);
+        let mut tr = honest.clone();
+        fill_cp(&mut tr, p, &gb(&sch.com), &gb(&t), &resp)?;
+        out.push(Variant { class: "simulated:random-C", bytes: tr.bytes, schnorr_true_under_c: true });
+        // zero responses: T = -c*C
+        let resp = Resp { bf: Scalar::zero(), msg: vec![Scalar::zero(); n] };
+        let t = sch.t_for(c, &resp);
+        let mut tr = honest.clone();
+        fill_cp(&mut tr, p, &gb(&sch.com), &gb(&t), &resp)?;
+        out.push(Variant { class: "simulated:random-C,zero-responses", bytes: tr.bytes, schnorr_true_under_c: true });
+    }
+    // (c) no opening and no simulation: random C, random T, random responses; random C with the
+    //     honest T and responses
+    {
+        let resp = rand_resp(rng);
+        let mut tr = honest.clone();
+        fill_cp(&mut tr, p, &gb(&G::random(&mut *rng)), &gb(&G::random(&mut *rng)), &resp)?;
+        out.push(Variant { class: "no-opening:all-random", bytes: tr.bytes, schnorr_true_under_c: false });
+        let mut tr = honest.clone();
+        tr.fset(&pfx(p, "commitment"), &gb(&G::random(&mut *rng)))?;
+        out.push(Variant { class: "no-opening:random-C,honest-rest", bytes: tr.bytes, schnorr_true_under_c: false });
+    }
+    // (d) compensated two-field changes of the honest proof: r_i+1 with T+g_i; bf response + 1 with T+h
+    {
+        let i = (rng.next_u32() as usize) % n;
+        let mut tr = honest.clone();
+        tr.fset(&pfx(p, &format!("message_response_scalars/[{}]", i)), &(rs_h[i] + Scalar::one()).to_bytes())?;
+        tr.fset(&pfx(p, "scalar_commitment"), &gb(&(t_honest + gs[i])))?;
+        out.push(Variant { class: "compensated:response+1,T+g", bytes: tr.bytes, schnorr_true_under_c: true });
+        let mut tr = honest.clone();
+        tr.fset(&pfx(p, "blinding_factor_response_scalar"), &(bf_h + Scalar::one()).to_bytes())?;
+        tr.fset(&pfx(p, "scalar_commitment"), &gb(&(t_honest + h)))?;
+        out.push(Variant { class: "compensated:bf-response+1,T+h", bytes: tr.bytes, schnorr_true_under_c: true });
+    }
+    Ok(out)
+}
+
+/// compensated changes of an honest signature proof that keep all three conjuncts true
+fn sig_compensated(rng: &mut R, honest: &Trace, pk: &PkAtoms, c: &Scalar) -> Result<Vec<Variant>, String> {
+    let s1: G1Projective = g1(&honest.fget("blinded_signature/sigma1")?).ok_or("sigma1")?.into();
+    let s2: G1Projective = g1(&honest.fget("blinded_signature/sigma2")?).ok_or("sigma2")?.into();
+    let com: G2Projective = g2(&honest.fget("commitment_proof/commitment")?).ok_or("commitment")?.into();
+    let (bf_h, _) = responses(honest, "commitment_proof")?;
+    let mut out = vec![];
+    // re-randomise the blinded signature
+    let r = Scalar::random(&mut *rng);
+    let mut tr = honest.clone();
+    tr.fset("blinded_signature/sigma1", &(s1 * r).to_affine().to_compressed())?;
+    tr.fset("blinded_signature/sigma2", &(s2 * r).to_affine().to_compressed())?;
+    out.push(Variant { class: "compensated:rerandomised-signature", bytes: tr.bytes, schnorr_true_under_c: true });
+    // re-blind: C + d*g~, sigma2 + d*sigma1, bf response + c*d
+    let d = Scalar::random(&mut *rng);
+    let mut tr = honest.clone();
+    tr.fset("commitment_proof/commitment", &(com + G2Projective::from(pk.g2) * d).to_affine().to_compressed())?;
+    tr.fset("blinded_signature/sigma2", &(s2 + s1 * d).to_affine().to_compressed())?;
+    tr.fset("commitment_proof/blinding_factor_response_scalar", &(bf_h + *c * d).to_bytes())?;
+    out.push(Variant { class: "compensated:reblinded", bytes: tr.bytes, schnorr_true_under_c: true });
+    // the same re-blinding without moving the signature: only the pairing link becomes false
+    let mut tr = honest.clone();
+    tr.fset("commitment_proof/commitment", &(com + G2Projective::from(pk.g2) * d).to_affine().to_compressed())?;
+    tr.fset("commitment_proof/blinding_factor_response_scalar", &(bf_h + *c * d).to_bytes())?;
+    out.push(Variant { class: "reblinded-commitment-only", bytes: tr.bytes, schnorr_true_under_c: true });
+    Ok(out)
+}
+
+// ------------------------------------------------------------------------------------------
+// the case
+
+const CLASSES: [&str; 5] = ["0", "1", "q-1", "small", "random"];
+
+fn val(rng: &mut R, class: usize) -> Scalar {
+    match class % 5 {
+        0 => Scalar::zero(),
+        1 => Scalar::one(),
+        2 => q_minus_1(),
+        3 => Scalar::from(2 + (rng.next_u32() % 100_000) as u64),
+        _ => Scalar::random(&mut *rng),
+    }
+}
+
+fn message<const N: usize>(rng: &mut R, v: usize) -> ([Scalar; N], String) {
+    let mut m = [Scalar::zero(); N];
+    let mut names = vec![];
+    for i in 0..N {
+        let cl = if v < 5 { v } else { (v + i * (1 + v / 5)) % 5 };
+        m[i] = val(rng, cl);
+        names.push(CLASSES[cl % 5]);
+    }
+    (m, if v < 5 { format!("all:{}", CLASSES[v]) } else { names.join(",") })
+}
+
+fn proof_case<const N: usize>(c: &mut Ctx, ty: Ty, inst: usize) {
+    let name = format!("{}/N={}/inst{}", ty.short(), N, inst);
+    c.case(&name, |c| {
+        let mut rng = c.rng(&name);
+        let st = Setup::<N>::new(&mut rng);
+        let (msg, mclass) = message::<N>(&mut rng, inst % 12);
+        // commitment scalars: random; some instances pin zero (with a zero message entry the
+        // response scalar itself is zero)
+        let mut cs = [None; N];
+        if inst % 3 == 2 {
+            for i in 0..N {
+                if i % 2 == 0 {
+                    cs[i] = Some(Scalar::zero());
+                }
+            }
+        }
+        let (honest, ch) = match build_honest(ty, &mut rng, &st, msg, &cs, name.as_bytes()) {
+            Ok(x) => x,
+            Err(e) => return c.inconclusive(&e),
+        };
+        let cval = ch.to_scalar();
+        let params = st.params(ty);
+        let ptrace = match st.ptrace(ty) {
+            Ok(t) => t,
+            Err(e) => return c.inconclusive(&e),
+        };
+        let pa = match param_atoms(ty, &ptrace) {
+            Ok(p) => p,
+            Err(e) => return c.inconclusive(&e),
+        };
+        let key = |what: &str| format!("{}/N={}/{}/{}", ty.short(), N, mclass, what);
+        let base_detail = json!({"type": ty.name(), "N": N, "message_classes": mclass, "challenge": hex(&cval.to_bytes()), "honest_proof": hex(&honest.bytes), "parameters": hex(&ptrace.bytes)});
+
+        // 1. the honest proof: positive control for everything below
+        {
+            let lib = match lib_verify(ty, &honest.bytes, &params, ch) {
+                Ok(b) => b,
+                Err(e) => return c.inconclusive(&format!("C11: honest proof does not decode: {}", e)),
+            };
+            let v = match oracle(ty, &honest, &pa, &cval) {
+                Ok(v) => v,
+                Err(e) => return c.inconclusive(&format!("C11: oracle cannot read the honest proof: {}", e)),
+            };
+            c.distinct(&key("honest"));
+            compare(c, &Obs { ty, n: N, class: "honest", label: "none(honest)", must_reject: false }, lib, v, || base_detail.clone());
+            if !(lib && v.all()) {
+                // without an accepted control the negative observations below mean nothing
+                if !v.all() {
+                    c.inconclusive("C11: the reference evaluator does not accept an honest proof — cannot observe");
+                }
+                return;
+            }
+        }
+
+        // 2. every atom of the proof replaced in turn
+        for a in &honest.atoms {
+            if a.kind == Kind::Len {
+                continue;
+            }
+            let acl = atom_class(a);
+            for (rname, rbytes) in replacements(c, &honest, a, &mut rng) {
+                let class = format!("proof-atom:{}:{}", acl, rname);
+                let label = format!("{}:{}", a.fpath, rname);
+                let mut tr = honest.clone();
+                tr.bytes = honest.with_replaced(a, &rbytes);
+                match lib_verify(ty, &tr.bytes, &params, ch) {
+                    Err(_) => c.count(&format!("replacement_not_decodable[{}:{}]", acl, rname), 1),
+                    Ok(lib) => match oracle(ty, &tr, &pa, &cval) {
+                        Ok(v) => {
+                            c.distinct(&key(&label));
+                            compare(c, &Obs { ty, n: N, class: &class, label: &label, must_reject: true }, lib, v, || {
+                                let mut d = base_detail.clone();
+                                d["atom"] = json!(a.path);
+                                d["original"] = json!(hex(honest.atom_bytes(a)));
+                                d["replacement"] = json!(hex(&rbytes));
+                                d
+                            });
+                        }
+                        Err(e) => c.inconclusive(&format!("C11: oracle cannot read a decodable proof: {}", e)),
+                    },
+                }
+            }
+        }
+
+        // 3. wrong challenge
+        {
+            let others = [
+                ("other-seed", ChallengeBuilder::new().with_bytes(name.as_bytes()).with_bytes(b"/other").finish()),
+                ("same-proof-other-context", fs_challenge::<N>(ty, &honest.bytes, b"another context").unwrap_or(ch)),
+                ("empty-transcript", ChallengeBuilder::new().finish()),
+            ];
+            for (what, ch2) in others {
+                if ch2.to_scalar() == cval {
+                    c.inconclusive("C11: could not produce a different challenge");
+                    continue;
+                }
+                let lib = lib_verify(ty, &honest.bytes, &params, ch2).unwrap_or(false);
+                match oracle(ty, &honest, &pa, &ch2.to_scalar()) {
+                    Ok(v) => {
+                        let label = format!("challenge:{}", what);
+                        c.distinct(&key(&label));
+                        compare(c, &Obs { ty, n: N, class: &label, label: &label, must_reject: true }, lib, v, || {
+                            let mut d = base_detail.clone();
+                            d["wrong_challenge"] = json!(hex(&ch2.to_scalar().to_bytes()));
+                            d
+                        });
+                    }
+                    Err(e) => c.inconclusive(&e),
+                }
+            }
+        }
+
+        // 4. wrong parameters: a fresh set / key, then every parameter atom replaced in turn
+        {
+            let st2 = Setup::<N>::new(&mut rng);
+            match st2.ptrace(ty).and_then(|t| param_atoms(ty, &t).map(|p| (t, p))) {
+                Ok((t2, pa2)) => {
+                    let lib = lib_verify(ty, &honest.bytes, &st2.params(ty), ch).unwrap_or(false);
+                    match oracle(ty, &honest, &pa2, &cval) {
+                        Ok(v) => {
+                            c.distinct(&key("params:fresh"));
+                            compare(c, &Obs { ty, n: N, class: "params:fresh", label: "params:fresh", must_reject: true }, lib, v, || {
+                                let mut d = base_detail.clone();
+                                d["wrong_parameters"] = json!(hex(&t2.bytes));
+                                d
+                            });
+                        }
+                        Err(e) => c.inconclusive(&e),
+                    }
+                }
+                Err(e) => c.inconclusive(&e),
+            }
+            for a in &ptrace.atoms {
+                if a.kind != Kind::G1 && a.kind != Kind::G2 {
+                    continue;
+                }
+                let acl = atom_class(a);
+                for (rname, rbytes) in replacements(c, &ptrace, a, &mut rng) {
+                    let mut pt = ptrace.clone();
+                    pt.bytes = ptrace.with_replaced(a, &rbytes);
+                    let p2 = match dec_params::<N>(ty, &pt.bytes) {
+                        Ok(p) => p,
+                        Err(_) => {
+                            c.count(&format!("parameter_replacement_not_decodable[{}:{}]", acl, rname), 1);
+                            continue;
+                        }
+                    };
+                    let pa2 = match param_atoms(ty, &pt) {
+                        Ok(p) => p,
+                        Err(e) => {
+                            c.inconclusive(&format!("C11: oracle cannot read decodable parameters: {}", e));
+                            continue;
+                        }
+                    };
+                    let lib = lib_verify(ty, &honest.bytes, &p2, ch).unwrap_or(false);
+                    match oracle(ty, &honest, &pa2, &cval) {
+                        Ok(v) => {
+                            let class = format!("param-atom:{}:{}", acl, rname);
+                            let label = format!("param:{}:{}", a.fpath, rname);
+                            c.distinct(&key(&label));
+                            // whether the relation depends on this generator is the oracle's call
+                            // (a zero response scalar, or the other group's half of a public key)
+                            compare(c, &Obs { ty, n: N, class: &class, label: &label, must_reject: false }, lib, v, || {
+                                let mut d = base_detail.clone();
+                                d["parameter_atom"] = json!(a.path);
+                                d["replacement"] = json!(hex(&rbytes));
+                                d
+                            });
+                        }
+                        Err(e) => c.inconclusive(&e),
+                    }
+                }
+            }
+        }
+
+        // 5. simulated / compensated transcripts and proofs without an opening, under a chosen
+        //    challenge c, another challenge c', and the Fiat-Shamir challenge of the object itself
+        {
+            let csim = ChallengeBuilder::new().with_bytes(name.as_bytes()).with_bytes(b"/simulation").finish();
+            let cprime = ChallengeBuilder::new().with_bytes(name.as_bytes()).with_bytes(b"/simulation-other").finish();
+            let cs_val = csim.to_scalar();
+            let p = ty.prefix();
+            let vars = match &pa {
+                PA::G1(h, gs) => sim_variants::<G1Projective>(&mut rng, &honest, p, (*h).into(), &gs.iter().map(|g| (*g).into()).collect::<Vec<_>>(), &cs_val),
+                PA::G2(h, gs) => sim_variants::<G2Projective>(&mut rng, &honest, p, (*h).into(), &gs.iter().map(|g| (*g).into()).collect::<Vec<_>>(), &cs_val),
+                PA::Pk(pk) if ty == Ty::Req => {
+                    sim_variants::<G1Projective>(&mut rng, &honest, p, pk.g1.into(), &pk.y1s.iter().map(|g| (*g).into()).collect::<Vec<_>>(), &cs_val)
+                }
+                PA::Pk(pk) => sim_variants::<G2Projective>(&mut rng, &honest, p, pk.g2.into(), &pk.y2s.iter().map(|g| (*g).into()).collect::<Vec<_>>(), &cs_val),
+            };
+            let mut vars = match vars {
+                Ok(v) => v,
+                Err(e) => return c.inconclusive(&format!("C11: simulator: {}", e)),
+            };
+            // variants built from the honest responses are true under the honest challenge, not
+            // under csim: split by which challenge they were built for
+            let mut runs: Vec<(Variant, Challenge)> = vec![];
+            for v in vars.drain(..) {
+                let for_ch = if v.class.starts_with("compensated") || v.class == "no-opening:random-C,honest-rest" { ch } else { csim };
+                runs.push((v, for_ch));
+            }
+            if let (Ty::Sig, PA::Pk(pk)) = (ty, &pa) {
+                match sig_compensated(&mut rng, &honest, pk, &cval) {
+                    Ok(vs) => runs.extend(vs.into_iter().map(|v| (v, ch))),
+                    Err(e) => c.inconclusive(&format!("C11: simulator: {}", e)),
+                }
+            }
+            for (v, for_ch) in runs {
+                let mut tr = honest.clone();
+                tr.bytes = v.bytes.clone();
+                let fs = fs_challenge::<N>(ty, &tr.bytes, b"");
+                let mut chs: Vec<(&str, Challenge)> = vec![("c", for_ch), ("c'", cprime)];
+                match fs {
+                    Ok(f) => chs.push(("fiat-shamir", f)),
+                    Err(_) => {
+                        c.count(&format!("assembled_not_decodable[{}]", v.class), 1);
+                        continue;
+                    }
+                }
+                for (cname, chx) in chs {
+                    let lib = match lib_verify(ty, &tr.bytes, &params, chx) {
+                        Ok(b) => b,
+                        Err(_) => continue,
+                    };
+                    let verdict = match oracle(ty, &tr, &pa, &chx.to_scalar()) {
+                        Ok(x) => x,
+                        Err(e) => {
+                            c.inconclusive(&e);
+                            continue;
+                        }
+                    };
+                    if cname == "c" && v.schnorr_true_under_c && !verdict.sch {
+                        c.inconclusive(&format!("C11: simulator produced a transcript whose Schnorr relation is false by the reference ({})", v.class));
+                        continue;
+                    }
+                    let class = format!("{}@{}", v.class, cname);
+                    c.distinct(&key(&class));
+                    compare(c, &Obs { ty, n: N, class: &class, label: &class, must_reject: cname != "c" }, lib, verdict, || {
+                        let mut d = base_detail.clone();
+                        d["assembled_proof"] = json!(hex(&tr.bytes));
+                        d["verified_under"] = json!(hex(&chx.to_scalar().to_bytes()));
+                        d
+                    });
+                }
+            }
+        }
+
+        // 6. signature proofs around signatures made degenerate through chosen randomness
+        if ty == Ty::Sig {
+            degenerate::<N>(c, &st, &mut rng, msg, &mclass, &pa);
+        }
+        if inst == 0 {
+            c.sample(json!({"type": ty.name(), "N": N, "message_classes": mclass, "proof_atoms": honest.atoms.len(), "parameter_atoms": ptrace.atoms.len(),
+                "challenge": hex(&cval.to_bytes())}));
+        }
+        verif_hooks::clear();
+    });
+}
+
+/// Zero bytes injected at every 64-byte draw of `SignatureProofBuilder::generate_proof_commitments`
+/// (one at a time) and into `Signature::randomize`: the in-memory proof object is verified and the
+/// oracle is evaluated on its traced atoms (the all-identity signature does not exist on the wire).
+fn degenerate<const N: usize>(c: &mut Ctx, st: &Setup<N>, rng: &mut R, msg: [Scalar; N], mclass: &str, pa: &PA) {
+    let pk = st.kp.public_key();
+    let sig = Message::new(msg).sign(rng, &st.kp);
+    let mut seed = [0u8; 32];
+    rng.fill_bytes(&mut seed);
+    let mut dry = ScriptRng::new(seed);
+    let b0 = SignatureProofBuilder::generate_proof_commitments(&mut dry, Message::new(msg), sig, &[None; N], pk);
+    let draws64 = dry.draws_of_len(64);
+    if draws64.len() < 3 {
+        return c.inconclusive("C11: dry run of the signature-proof prover saw fewer than three 64-byte draws");
+    }
+    let identity1 = g1_identity_bytes().to_vec();
+    let check = |c: &mut Ctx, class: &str, p: &SignatureProof<N>, ch: Challenge, expect_degenerate: Option<bool>| {
+        let t = match trace(p) {
+            Ok(t) => t,
+            Err(e) => return c.inconclusive(&e),
+        };
+        let is_deg = t.fget("blinded_signature/sigma1").map(|b| b == identity1).unwrap_or(false);
+        if let Some(e) = expect_degenerate {
+            if e != is_deg {
+                return c.inconclusive(&format!("C11: scripted randomness did not have the intended effect ({}: sigma1 identity = {})", class, is_deg));
+            }
+        }
+        let lib = p.verify_knowledge_of_signature(pk, ch);
+        let v = match oracle(Ty::Sig, &t, pa, &ch.to_scalar()) {
+            Ok(v) => v,
+            Err(e) => return c.inconclusive(&e),
+        };
+        if is_deg {
+            c.count("degenerate_signature_proofs_observed", 1);
+            match dec::<SignatureProof<N>>(&t.bytes) {
+                Ok(_) => c.count("degenerate_proof_decodes_from_wire", 1),
+                Err(_) => c.count("degenerate_proof_rejected_at_decode", 1),
+            }
+        }
+        c.distinct(&format!("Sig/N={}/{}/{}", N, mclass, class));
+        compare(c, &Obs { ty: Ty::Sig, n: N, class, label: class, must_reject: is_deg }, lib, v, || {
+            json!({"type": "SignatureProof", "N": N, "message_classes": mclass, "in_memory_proof": hex(&t.bytes), "challenge": hex(&ch.to_scalar().to_bytes())})
+        });
+    };
+    // positive twin: the dry run itself
+    {
+        let ch = ChallengeBuilder::new().with(&b0).finish();
+        let p = b0.generate_proof_response(ch);
+        check(c, "scripted:no-injection", &p, ch, Some(false));
+    }
+    let last = *draws64.last().unwrap();
+    for (k, idx) in draws64.iter().enumerate() {
+        let mut s = ScriptRng::new(seed);
+        s.inject(*idx, vec![0u8; 64]);
+        let b = SignatureProofBuilder::generate_proof_commitments(&mut s, Message::new(msg), sig, &[None; N], pk);
+        if s.consumed != 1 || s.misaligned != 0 {
+            c.inconclusive("C11: injection was not consumed by the prover");
+            continue;
+        }
+        let ch = ChallengeBuilder::new().with(&b).finish();
+        let p = b.generate_proof_response(ch);
+        if *idx == last {
+            check(c, "degenerate:randomizer=0(all-identity-signature)", &p, ch, Some(true));
+        } else {
+            let class = match k {
+                0 => "scripted:blinding-factor=0".to_string(),
+                1 => "scripted:bf-commitment-scalar=0".to_string(),
+                _ => "scripted:commitment-scalar=0".to_string(),
+            };
+            check(c, &class, &p, ch, Some(false));
+        }
+    }
+    // Signature::randomize with randomizer 0, then an ordinary proof around the result
+    {
+        let mut s = ScriptRng::new(seed);
+        s.inject(0, vec![0u8; 64]);
+        let mut sg = sig;
+        sg.randomize(&mut s);
+        if s.consumed != 1 {
+            return c.inconclusive("C11: injection was not consumed by Signature::randomize");
+        }
+        let b = SignatureProofBuilder::generate_proof_commitments(rng, Message::new(msg), sg, &[None; N], pk);
+        let ch = ChallengeBuilder::new().with(&b).finish();
+        let p = b.generate_proof_response(ch);
+        check(c, "degenerate:Signature::randomize(0)", &p, ch, Some(true));
+    }
+}
+
+fn type_cases<const N: usize>(c: &mut Ctx) {
+    let insts = c.tier.pick(6usize, 60);
+    for ty in Ty::ALL {
+        for inst in 0..insts {
+            proof_case::<N>(c, ty, inst);
+        }
+    }
+}
 
 pub fn run(c: &mut Ctx) {
-    c.inconclusive("C11: monitor not written yet");
+    c.note(
+        "rule",
+        json!("per (proof type in {CommitmentProof<G1>, CommitmentProof<G2>, SignatureProof, SignatureRequestProof}, N in {1,2,3,5,8,13}, instance = message variant over {0,1,q-1,small,random} and pinned-zero commitment scalars): the honest proof (control), every wire atom of the proof replaced in turn (other valid point, identity, scalar +1/-1/random) and re-decoded, three wrong challenges, a fresh parameter set / key and every parameter atom replaced, simulated transcripts (honest C / random C / zero responses; T = Com(resp) - c*C) and compensated multi-field changes each verified under c, under c' and under the Fiat-Shamir challenge of the assembled proof, objects without an opening, and signature proofs built with zero bytes injected at every 64-byte draw of the prover (the randomizer draw gives the all-identity signature, verified in memory). Each observation compares the library verifier with the reference relation on the wire atoms. Distinct = distinct (type, N, message classes, perturbed atom path or transcript class, replacement kind / challenge)."),
+    );
+    verif_hooks::clear();
+    type_cases::<1>(c);
+    type_cases::<2>(c);
+    type_cases::<3>(c);
+    type_cases::<5>(c);
+    type_cases::<8>(c);
+    type_cases::<13>(c);
 }
